@@ -73,6 +73,7 @@ def warm_quick():
     runs.append(('Partition', f'Partition_{md}.cfg', dict(workers=1, timeout=900)))
   for md in ('metrics', 'opt'):
     runs.append(('TrainLoop', f'TrainLoop_{md}.cfg', dict(workers=1, timeout=1800)))
+  runs.append(('Bridge', 'Bridge_mc.cfg', dict(workers=1, timeout=900)))
   runs.append(('NnxGraph', 'NnxGraph_mc.cfg', dict(workers=16, timeout=3000)))
   runs.append(('NnxGraph', 'NnxGraph_small.cfg', dict(workers=1, timeout=3000)))
   return runs
